@@ -74,7 +74,7 @@ def node_wiring(ctx):
              and guard_line < use_line,
              "add_declarations must raise RuntimeError for a parent that is not a NamespaceMixin before it constructs a "
              "BlockNode on it or calls parent.add_declaration (guard at %r, first use at %r)" % (guard_line, use_line),
-             confirm=lambda: ctx.monitor("m_yaml", "search", 1000, ctx.seed), shape=True)
+             confirm=lambda: ctx.monitor("m_yaml", "search", 1500, ctx.seed), shape=True)
     # (b)
     blk = classes.get("BlockNode")
     init = [m for m in blk.body if isinstance(m, ast.FunctionDef) and m.name == "__init__"][0] if blk else None
@@ -120,7 +120,7 @@ def node_wiring(ctx):
             ctx.item("C17/S1/BlockNode(parent=%s).%s" % (cname, attr), provides(cname, attr),
                      "BlockNode.__init__ reads parent.%s but %s never assigns it: a block inside a %s raises AttributeError"
                      % (attr, cname, cname), sample={"parent_class": cname, "attribute": attr},
-                     confirm=lambda: ctx.monitor("m_yaml", "search", 1000, ctx.seed))
+                     confirm=lambda: ctx.monitor("m_yaml", "search", 1500, ctx.seed))
 
 
 def tokenizer_termination(ctx):
@@ -208,7 +208,7 @@ def run(ctx):
     literal_error_msg_sites(ctx)
     node_wiring(ctx)
     # bounded stand-in for the YAML structure (never counted as proved)
-    r = ctx.monitor("m_yaml", "search", 1000, ctx.seed)
+    r = ctx.monitor("m_yaml", "search", 1500, ctx.seed)
     ctx.bounded.append({"monitor": "m_yaml", "inputs_tried": r["tried"], "violation": r["violation"],
                         "kind": "bounded: real pipeline on 12 parent kinds x 15 child shapes (block/declarations nesting, wrong-typed "
                                 "decl/options/format/attrs/declarations) and 14 wrong-typed top-level keys: only RuntimeError / "
